@@ -67,10 +67,23 @@ func (StdEng) denseRepeat(t, reuse DenseTensor, newShape Shape, axis, size int, 
 	if err != nil {
 		return nil, errors.Wrapf(err, "Repeat reuse is not a *Dense")
 	}
-	if td, ok := t.(*Dense); ok && td.IsMaterializable() {
-		// the block copies below read t's backing array: a view or a lazily transposed
-		// tensor is brought into dense form first
-		t = td.Materialize().(DenseTensor)
+	if d.DataOrder().IsColMajor() {
+		return nil, errors.Errorf("Repeat cannot write into a column-major reuse tensor")
+	}
+	if td, ok := t.(*Dense); ok {
+		switch {
+		case td.IsMaterializable():
+			// the block copies below read t's backing array: a view or a lazily transposed
+			// tensor is brought into dense form first
+			t = td.Materialize().(DenseTensor)
+		case td.DataOrder().IsColMajor():
+			// ... and they read it as row-major storage
+			rowMajor := recycledDense(td.t, td.shape.Clone(), WithEngine(td.e))
+			if _, err = copyDenseIter(rowMajor, td, nil, nil); err != nil {
+				return nil, errors.Wrapf(err, "Repeat failed to copy a column-major operand")
+			}
+			t = rowMajor
+		}
 	}
 	var outers int
 	if t.IsScalar() {
